@@ -41,7 +41,17 @@ class _StubMinimize:
         env = self.env
         xs = [env.real("slsqp_x%d_call%d" % (i, self.calls), -10, 10) for i in range(len(x0))]
         ok = env.real("slsqp_success_call%d" % self.calls, 0, 1)
-        return {"success": env.b(ok >= 0.5), "x": env.array(xs)}
+        return {"success": env.b(ok >= 0.5) if env.symbolic else bool(ok >= 0.5), "x": env.array(xs) if env.symbolic else np.array([float(v) for v in xs])}
+
+
+def _slsqp_patches(env, ao, n, scipy, patches):
+    """SLSQP is environment: in the symbolic run it returns an arbitrary vector and success flag (the code under test must
+    validate whatever it gets); a counterexample is replayed first with the real SLSQP and, if that does not reproduce it, with the
+    optimizer output of the solver's model fed back in (ConcEnv with inject=True) - the report then says so"""
+    use_stub = env.symbolic or (getattr(env, "inject", False) and any(k.startswith("slsqp_x0_call") for k in getattr(env, "values", {})))
+    if not use_stub:
+        return patches
+    return [p for p in patches if not (p[0] is ao.__dict__ and p[1] == "scipy")] + [(ao.__dict__, "scipy", _StubMinimize(env, n, scipy), "concrete")]
 
 
 def _rebind(f, **stubs):
@@ -155,8 +165,7 @@ def constrain_instructions_body(n, limit_type):
         import atomica.utils as au
 
         patches = shim.patches_for(ao, ap, au)
-        if env.symbolic:
-            patches = [p for p in patches if not (p[0] is ao.__dict__ and p[1] == "scipy")] + [(ao.__dict__, "scipy", _StubMinimize(env, n, scipy))]
+        patches = _slsqp_patches(env, ao, n, scipy, patches)
         with env.installed(patches):
             opt, con, instr, names, spends, bounds, tot, bf, t = _mk_opt(env, ao, ap, au, n, limit_type, True, False)
             try:
@@ -182,7 +191,7 @@ def constrain_instructions_body(n, limit_type):
     return body
 
 
-def multi_year_body(n=2):
+def multi_year_body(n=2, unsorted=False):
     """A total-spend constraint applying in two years: every constrained year meets its own total and bounds"""
 
     def body(env):
@@ -192,9 +201,8 @@ def multi_year_body(n=2):
         import atomica.utils as au
 
         patches = shim.patches_for(ao, ap, au)
-        if env.symbolic:
-            patches = [p for p in patches if not (p[0] is ao.__dict__ and p[1] == "scipy")] + [(ao.__dict__, "scipy", _StubMinimize(env, n, scipy))]
-        years = [2020.0, 2022.0]
+        patches = _slsqp_patches(env, ao, n, scipy, patches)
+        years = [2022.0, 2020.0] if unsorted else [2020.0, 2022.0]  # as listed by the user (the bounds below are per listed year)
         names = ["P%d" % i for i in range(n)]
         with env.installed(patches):
             spends = {y: [env.real("spend%d@%g" % (i, y), 0, VMAX) for i in range(n)] for y in years}
@@ -202,11 +210,12 @@ def multi_year_body(n=2):
             bounds = []
             adjs = []
             for i, nm in enumerate(names):
-                lo = env.real("lower%d" % i, 0, VMAX)
-                hi = env.real("upper%d" % i, 0, VMAX)
-                env.assume(env.b(lo <= hi), "lower <= upper")
-                adjs.append(ao.SpendingAdjustment(nm, years, "abs", lo, hi))
-                bounds.append((lo, hi))
+                los = [env.real("lower%d@%g" % (i, y), 0, VMAX) for y in years]
+                his = [env.real("upper%d@%g" % (i, y), 0, VMAX) for y in years]
+                for lo, hi in zip(los, his):
+                    env.assume(env.b(lo <= hi), "lower <= upper")
+                adjs.append(ao.SpendingAdjustment(nm, years, "abs", list(los), list(his)))
+                bounds.append(dict(zip(years, zip(los, his))))
             tots = [env.real("total@%g" % y, 1e-3, VMAX) for y in years]
             con = ao.TotalSpendConstraint(total_spend=tots, t=years)
             opt = ao.Optimization(name="o", adjustments=adjs, measurables=[], constraints=[con])
@@ -227,7 +236,7 @@ def multi_year_body(n=2):
             s = 0.0
             for i in range(n):
                 s = s + vals[y][i]
-                env.claim("amount_within_bounds_%d@%g" % (i, y), env.ge(vals[y][i], bounds[i][0]) & env.le(vals[y][i], bounds[i][1]), key="instr_bounds[year %d]" % k)
+                env.claim("amount_within_bounds_%d@%g" % (i, y), env.ge(vals[y][i], bounds[i][y][0]) & env.le(vals[y][i], bounds[i][y][1]), key="instr_bounds[year %d]" % k)
             d = s - tots[k]
             env.claim("amounts_meet_total@%g" % y, env.le(d, 1e-8 + 1e-5 * tots[k], 0) & env.ge(d, -(1e-8 + 1e-5 * tots[k]), 0), key="instr_total[year %d]" % k)
 
@@ -245,8 +254,7 @@ def mixed_body():
         import atomica.utils as au
 
         patches = shim.patches_for(ao, ap, au)
-        if env.symbolic:
-            patches = [p for p in patches if not (p[0] is ao.__dict__ and p[1] == "scipy")] + [(ao.__dict__, "scipy", _StubMinimize(env, 2, scipy))]
+        patches = _slsqp_patches(env, ao, 2, scipy, patches)
         t = 2020.0
         init = [10.0, 30.0]
         with env.installed(patches):
@@ -286,6 +294,51 @@ def mixed_body():
     return body
 
 
+def paired_mixed_body():
+    """A paired (parametric) adjustment next to a plain bounded one under a total-spend constraint: the paired programs have no
+    explicit bounds, but spending can never become negative"""
+
+    def body(env):
+        import scipy
+        import atomica.optimization as ao
+        import atomica.programs as ap
+        import atomica.utils as au
+
+        patches = shim.patches_for(ao, ap, au)
+        patches = _slsqp_patches(env, ao, 3, scipy, patches)
+        t = 2020.0
+        with env.installed(patches):
+            sp = {nm: env.real("spend%s" % nm, 0, VMAX) for nm in ("A", "B", "C")}
+            instr = ap.ProgramInstructions(start_year=2019.0, alloc={nm: au.TimeSeries(t=[t], vals=[v]) for nm, v in sp.items()})
+            lo = env.real("lowerC", 0, VMAX)
+            hi = env.real("upperC", 0, VMAX)
+            env.assume(env.b(lo <= hi), "lower <= upper")
+            adjs = [ao.PairedLinearSpendingAdjustment(["A", "B"], [t, t + 2.0]), ao.SpendingAdjustment("C", t, "abs", lo, hi)]
+            tot = env.real("total_spend", 1e-3, VMAX)
+            con = ao.TotalSpendConstraint(total_spend=tot, t=t)
+            opt = ao.Optimization(name="o", adjustments=adjs, measurables=[], constraints=[con])
+            try:
+                hc = con.get_hard_constraint(opt, instr)
+            except ao.UnresolvableConstraint:
+                return
+            prop = {nm: env.real("proposal%s" % nm, 0, VMAX) for nm in ("A", "B", "C")}
+            for nm, v in prop.items():
+                instr.alloc[nm].insert(t, v)
+            try:
+                con.constrain_instructions(instr, hc, opt)
+            except (ao.FailedConstraint, AssertionError):
+                return
+            vals = {nm: instr.alloc[nm].get(t) for nm in ("A", "B", "C")}
+        s = vals["A"] + vals["B"] + vals["C"]
+        d = s - tot
+        env.claim("amounts_meet_total", env.le(d, 1e-8 + 1e-5 * tot, 0) & env.ge(d, -(1e-8 + 1e-5 * tot), 0), key="paired_mixed_total")
+        env.claim("plain_amount_within_bounds", env.ge(vals["C"], lo) & env.le(vals["C"], hi), key="paired_mixed_bounds")
+        for nm in ("A", "B"):
+            env.claim("paired_program_spending_nonnegative_%s" % nm, env.ge(vals[nm], 0.0), key="paired_mixed_nonneg")
+
+    return body
+
+
 def package_body(n, adjust_total):
     def body(env):
         import scipy
@@ -299,8 +352,7 @@ def package_body(n, adjust_total):
         minp = [0.05] * n
         maxp = [0.9] * n
         patches = shim.patches_for(ao, ap, au)
-        if env.symbolic:
-            patches = [p for p in patches if not (p[0] is ao.__dict__ and p[1] == "scipy")] + [(ao.__dict__, "scipy", _StubMinimize(env, n, scipy))]
+        patches = _slsqp_patches(env, ao, n, scipy, patches)
         pk = ao.SpendingPackageAdjustment("pkg", 2020.0, names, np.array(init), min_props=minp, max_props=maxp, min_total_spend=tot0 * 0.5 if adjust_total else None, max_total_spend=tot0 * 2 if adjust_total else None)
         with env.installed(patches):
             instr = ap.ProgramInstructions(start_year=2019.0, alloc={nm: au.TimeSeries(t=[2020.0], vals=[v]) for nm, v in zip(names, init)})
@@ -363,6 +415,8 @@ def specs(tier):
                 out.append(("hard_constraint[n=2;%s;explicit=%d;factor=%d]" % (lt, et, fac), hard_constraint_body, dict(n=2, limit_type=lt, explicit_total=et, factor=fac), ("UnresolvableConstraint",)))
     out.append(("constrain_instructions[n=2;abs]", constrain_instructions_body, dict(n=2, limit_type="abs"), ("FailedConstraint", "AssertionError", "UnresolvableConstraint")))
     out.append(("constrain_instructions[n=2;two constrained years]", multi_year_body, dict(n=2), ("FailedConstraint", "AssertionError", "UnresolvableConstraint")))
+    out.append(("constrain_instructions[n=2;two constrained years listed in descending order;per-year bounds]", multi_year_body, dict(n=2, unsorted=True), ("FailedConstraint", "AssertionError", "UnresolvableConstraint")))
+    out.append(("constrain_instructions[paired adjustment + plain program]", paired_mixed_body, dict(), ("FailedConstraint", "AssertionError", "UnresolvableConstraint")))
     out.append(("constrain_instructions[package with adjustable total + plain program]", mixed_body, dict(), ("FailedConstraint", "AssertionError", "UnresolvableConstraint")))
     out.append(("package[n=2;fixed total]", package_body, dict(n=2, adjust_total=False), ("FailedConstraint", "AssertionError")))
     out.append(("package[n=2;adjustable total]", package_body, dict(n=2, adjust_total=True), ("FailedConstraint", "AssertionError")))
